@@ -182,6 +182,13 @@ class Sched:
         # called with cv held, by the thread that can no longer run
         ready = self._ready() - {idx}
         if not ready:
+            # nobody can run: a wait with a time limit comes back (its time is up)
+            timed = sorted(i for i, s in self.state.items() if isinstance(s, tuple) and getattr(s[1], "timed", False))
+            if timed:
+                self.state[timed[0]][1].timed_out = True
+                self.state[timed[0]] = "ready"
+                ready = {timed[0]}
+        if not ready:
             waiting = {i: s for i, s in self.state.items() if s != "done"}
             if waiting and all(isinstance(s, tuple) for s in waiting.values()):
                 self.deadlock = "all unfinished threads are blocked: %s" % {i: repr(s[1]) for i, s in waiting.items()}
@@ -231,19 +238,25 @@ class SchedRLock:
 
     def __init__(self):
         self._real = threading.RLock()
+        self._depth = 0  # how often its owner holds it (only touched by the owner)
 
     def acquire(self, blocking=True, timeout=-1):
         s = Sched.current_sched
         idx = s.me() if s is not None else None
         if idx is None:
-            return self._real.acquire(blocking, timeout)
+            got = self._real.acquire(blocking, timeout)
+            if got:
+                self._depth += 1
+            return got
         while not self._real.acquire(False):
             if not blocking:
                 return False
             s.block(idx, self)
+        self._depth += 1
         return True
 
     def release(self):
+        self._depth -= 1
         self._real.release()
         s = Sched.current_sched
         if s is not None:
@@ -256,6 +269,76 @@ class SchedRLock:
 
     def __repr__(self):
         return "<SchedRLock %x>" % id(self)
+
+
+class _Waiter:
+    def __init__(self, timed):
+        self.notified, self.timed, self.timed_out = False, timed, False
+
+    def __repr__(self):
+        return "<waiting on a condition%s>" % (" (with a time limit)" if self.timed else "")
+
+
+class SchedCondition:
+    """threading.Condition semantics over a SchedRLock; a thread that waits is blocked as far as the scheduler is
+    concerned, until it is notified (first come, first served) - or, for a wait with a time limit, until nobody else can
+    run."""
+
+    def __init__(self, lock=None):
+        self._lock = lock if isinstance(lock, SchedRLock) else SchedRLock()
+        self._waiters = []
+        self.acquire, self.release = self._lock.acquire, self._lock.release
+
+    def __enter__(self):
+        return self._lock.acquire()
+
+    def __exit__(self, *a):
+        self._lock.release()
+
+    def wait(self, timeout=None):
+        s = Sched.current_sched
+        idx = s.me() if s is not None else None
+        if idx is None:  # a thread the scheduler does not manage: give the lock up for a moment
+            depth = self._lock._depth
+            for _ in range(depth):
+                self._lock.release()
+            time.sleep(0.001)
+            for _ in range(depth):
+                self._lock.acquire()
+            return True
+        w = _Waiter(timeout is not None)
+        self._waiters.append(w)
+        depth = self._lock._depth
+        for _ in range(depth):
+            self._lock.release()
+        while not (w.notified or w.timed_out):
+            s.block(idx, w)
+        if w in self._waiters:
+            self._waiters.remove(w)
+        for _ in range(depth):
+            self._lock.acquire()
+        return w.notified
+
+    def wait_for(self, predicate, timeout=None):
+        result = predicate()
+        while not result:
+            if not self.wait(timeout) and timeout is not None:
+                return predicate()
+            result = predicate()
+        return result
+
+    def notify(self, n=1):
+        s = Sched.current_sched
+        for w in [w for w in self._waiters if not w.notified][:n]:
+            w.notified = True
+            self._waiters.remove(w)
+            if s is not None:
+                s.unblock(w)
+
+    def notify_all(self):
+        self.notify(len(self._waiters))
+
+    notifyAll = notify_all
 
 
 # ---------------------------------------------------------------- instrumentation
@@ -300,15 +383,27 @@ def install_locks():
     from twosigma.memento import runner_local, storage_base  # noqa: F401
 
     rebound = []
+    replaced = {}  # id of a lock object of the code under test -> the scheduler-aware lock that took its place
+    mods = [m_ for n_, m_ in sorted(sys.modules.items()) if n_.startswith("twosigma.memento.") and m_ is not None]
     # (every module of the package: a lock added anywhere by a repair is picked up)
-    for mod in [m_ for n_, m_ in sorted(sys.modules.items()) if n_.startswith("twosigma.memento.") and m_ is not None]:
+    for mod in mods:
         short = mod.__name__.rsplit(".", 1)[-1]
         for name, val in list(vars(mod).items()):
             if name in ("RLock", "Lock") and val is not SchedRLock:
                 setattr(mod, name, SchedRLock)
                 rebound.append("%s.%s" % (short, name))
+            elif name == "Condition" and val is not SchedCondition:
+                setattr(mod, name, SchedCondition)
+                rebound.append("%s.%s" % (short, name))
             elif isinstance(val, _LOCK_TYPES):
-                setattr(mod, name, SchedRLock())
+                replaced[id(val)] = SchedRLock()
+                setattr(mod, name, replaced[id(val)])
+                rebound.append("%s.%s" % (short, name))
+    for mod in mods:  # condition variables, over the lock that replaced theirs
+        short = mod.__name__.rsplit(".", 1)[-1]
+        for name, val in list(vars(mod).items()):
+            if isinstance(val, threading.Condition):
+                setattr(mod, name, SchedCondition(replaced.get(id(getattr(val, "_lock", None)))))
                 rebound.append("%s.%s" % (short, name))
     reset_mutexes()
     return rebound
